@@ -8,7 +8,9 @@ import jsonpath
 from jsonpath import JSONPatch, JSONPathEnvironment
 from jsonpath.exceptions import JSONPatchError
 
-from vlib.hs import Leaf, P, kf, ok, pick, same_json, small, why
+import json
+
+from vlib.hs import Leaf, P, alist, drive, kf, ok, pick, same_json, small, why
 
 ENV = JSONPathEnvironment()
 QTEXT = P.get("qtext", "$..*")
@@ -16,6 +18,7 @@ COMPILED = ENV.compile(QTEXT)
 DOCKIND = P.get("doc", 0)
 NAMES = ["1", "+1", "-1", "01", "~", "/", "", "é", "a/b", "~1", "#a", "0", " ", "-", "😀", "-0"]
 ALO, AHI, NEXT_ONLY = P.get("alo", 0), P.get("ahi", 15), P.get("next_only", False)
+ROUTE = P.get("route", "sync")
 VT = {"leaf": Leaf, "int": int}[P.get("vleaf", "int")]
 
 
@@ -27,6 +30,13 @@ def mkdoc(l0: int, l1: int, l2: int, l3: int, n: int, k1: str, k2: str) -> Any:
         arr.append(l3)
     if DOCKIND == 0:
         return {"1": l0, "+1": l1, "-1": arr, "01": {"~": l2, "/": l3, "": l0, "é": l1, "-0": l2, "0": l3}}
+    if DOCKIND == 3:
+        rows = [l0, l1]
+        if n >= 1:
+            rows.append(l2)
+        if n >= 2:
+            rows.append(l3)
+        return {"rows": rows, "1": [l3, l2, l1, l0, l1]}
     if DOCKIND == 1:
         return {k1: l0, k2: {k1: l1, "x": arr}, "x": [{k2: l2}]}
     return [arr, {"0": l0, "1": [l1]}, l3]
@@ -59,7 +69,10 @@ def pipeline(l0: int, l1: int, l2: int, l3: int, n: int, a: int, b: int, v: VT) 
     k1, k2 = pick(NAMES, a), pick(NAMES, b)
     doc = mkdoc(l0, l1, l2, l3, n, k1, k2)
     pristine = mkdoc(l0, l1, l2, l3, n, k1, k2)
-    matches = list(COMPILED.finditer(doc))
+    if ROUTE == "async":
+        matches = drive(alist(drive(COMPILED.finditer_async(doc))))
+    else:
+        matches = list(COMPILED.finditer(doc))
     for m in matches:
         if not m.parts:
             continue
@@ -97,3 +110,49 @@ def pipeline(l0: int, l1: int, l2: int, l3: int, n: int, a: int, b: int, v: VT) 
         if not why(same_json(r4, _edit(pristine, m.parts, "replace", v)), "pointer text edits something else", str(ptr), r4):
             return ok(False)
     return ok(same_json(doc, pristine))
+
+
+TEXT = json.dumps(mkdoc(1, 2, 3, 4, 2, "a", "b"))
+NMATCH = len(list(COMPILED.finditer(json.loads(TEXT))))
+
+
+def _apply(op: int, ptr: Any, obj: Any, v: Any, text: str) -> Any:
+    if op == 0:
+        return JSONPatch().test(ptr, obj).apply(text)
+    if op == 1:
+        return JSONPatch().replace(ptr, v).apply(text)
+    return JSONPatch().remove(ptr).apply(text)
+
+
+def _ref(op: int, parts: tuple, v: Any) -> Any:
+    pristine = json.loads(TEXT)
+    if op == 0:
+        return pristine
+    return _edit(pristine, parts, "replace" if op == 1 else "remove", v)
+
+
+def text_history(i: int, j: int, op1: int, op2: int, v: int) -> bool:
+    """The document is JSON text, matched and patched twice in a row: every call starts from the text, not from what an
+    earlier call left behind.
+
+    pre: 0 <= i < NMATCH and (j == i or j == (i + 1) % NMATCH)
+    pre: 1 <= op1 <= 2 and 0 <= op2 <= 2
+    post: _
+    """
+    m1 = list(COMPILED.finditer(TEXT))[i]
+    if not m1.parts:
+        return ok(True)
+    r1 = _apply(op1, m1.pointer(), m1.obj, v, TEXT)
+    if not why(same_json(r1, _ref(op1, m1.parts, v)), "first patch of the text", m1.path, op1, r1):
+        return ok(False)
+    again = list(COMPILED.finditer(TEXT))
+    if not why(len(again) == NMATCH, "the text matches differently after a patch was applied to it", len(again), NMATCH):
+        return ok(False)
+    m2 = again[j]
+    if not m2.parts:
+        return ok(True)
+    try:
+        r2 = _apply(op2, m2.pointer(), m2.obj, v + 1, TEXT)
+    except JSONPatchError as e:
+        return ok(why(False, "second patch of the same text failed", m2.path, op2, str(e)))
+    return ok(why(same_json(r2, _ref(op2, m2.parts, v + 1)), "second patch of the same text started from the patched document", m1.path, op1, m2.path, op2, r2))
